@@ -25,11 +25,13 @@ PROP = "C09"
 FMT = '%{filename}|%{cmdline}|%{tid}|%{tid_kernel}|%{snoopy_threads}'
 
 
-def write_conf(work, fmt, out):
+def write_conf(work, fmt, out, chain=None):
     conf = os.path.join(work, "conf")
     os.makedirs(conf, exist_ok=True)
     with open(os.path.join(conf, "snoopy.ini"), "w") as f:
         f.write('[snoopy]\nmessage_format = "%s"\noutput = %s\n' % (fmt, out))
+        if chain:
+            f.write('filter_chain = "%s"\n' % chain)
     return conf
 
 
@@ -131,13 +133,14 @@ def dfs_shard(arg):
 
 
 def stress_run(arg):
-    bld, kind, nt, ncalls, fmt, out, seed, root, idx = arg
+    bld, kind, nt, ncalls, fmt, out, seed, root, idx = arg[:9]
+    chain = arg[9] if len(arg) > 9 else None
     work = os.path.join(root, "s%s%04d" % (kind, idx))
     os.makedirs(work, exist_ok=True)
     logp = os.path.join(work, "log")
     sockp = os.path.join(work, "sock")
     outspec = {"file": "file:" + logp, "noop": "noop", "devnull": "devnull", "socket": "socket:" + sockp, "devlog": "devlog"}[out]
-    conf = write_conf(work, fmt, outspec)
+    conf = write_conf(work, fmt, outspec, chain[0] if chain else None)
     exe = os.path.join(HBIN, "vthreads-tsan" if kind == "tsan" else "vthreads")
     env = {"PATH": "/usr/bin:/bin", "LD_PRELOAD": "%s %s" % (bld.lib, os.path.join(HBIN, "libvrec.so")), "LOGNAME": "lg", "HOME": "/root", "TZ": "UTC",
            "VREC_DEVLOG": os.path.join(work, "nodevlog"),
@@ -146,7 +149,7 @@ def stress_run(arg):
                        env=env, capture_output=True, timeout=1800, cwd=work)
     F = Findings(PROP)
     st = dict(stress_runs=1, stress_calls=nt * ncalls, tsan_reports=0, concurrent_runs=0)
-    wit = dict(kind=kind, threads=nt, calls=ncalls, format=fmt, output=out, seed=seed)
+    wit = dict(kind=kind, threads=nt, calls=ncalls, format=fmt, output=out, seed=seed, filter_chain=chain)
     if r.returncode != 0 and kind != "tsan":
         F.violation("C09:stress:crash:rc%d" % r.returncode, "threads driver died (rc %d) with format %s" % (r.returncode, fmt[:60]), dict(wit, stderr=r.stderr.decode("latin-1")[-500:]))
         return F, st
@@ -180,10 +183,19 @@ def stress_run(arg):
         if r.returncode not in (0, 66) and not reps:
             F.violation("C09:stress:crash:rc%d" % r.returncode, "TSan threads driver died (rc %d) without a report" % r.returncode, dict(wit, stderr=r.stderr.decode("latin-1")[-500:]))
     if out == "file" and fmt == FMT and threads:
-        with open(logp, errors="replace") as fh:
-            recs = fh.read().splitlines()
-        lone = threads.get(9999)
-        check_records(recs, threads, nt, ncalls, F, wit, "stress")
+        try:
+            with open(logp, errors="replace") as fh:
+                recs = fh.read().splitlines()
+        except FileNotFoundError:
+            recs = []           # nothing was ever logged
+        if chain and chain[1] == "drop":
+            # every call must be dropped by the chain, whatever the other threads are doing in the chain walker
+            st["stress_dropped_runs"] = 1
+            if recs:
+                F.violation("C09:stress:dropped-call-logged", "%d of %d calls that the chain %r drops when made alone were logged under %d concurrent threads" % (
+                    len(recs), nt * ncalls + 1, chain[0], nt), dict(wit, example=recs[:3]))
+        else:
+            check_records(recs, threads, nt, ncalls, F, wit, "stress")
         st["stress_records"] = len(recs)
     rmwork(work)
     return F, st
@@ -234,6 +246,12 @@ def main():
     for i in range(6 if tr == "quick" else 60):
         sj.append((bld, "plain", rng.choice([2, 8, 32, 64]), 200, FMT, "file", rng.randrange(1, 10**6), root, idx))
         idx += 1
+    # filter chains with several elements under real concurrency (the chain walker must not share state between threads)
+    for i in range(8 if tr == "quick" else 80):
+        ch = rng.choice([("noop;noop;noop;only_uid:7", "drop"), ("noop;exclude_uid:5;only_uid:0,1;noop;exclude_uid:0", "drop"),
+                         ("noop;only_uid:0;exclude_uid:7;noop", "log"), ("only_root;noop;noop;noop;exclude_spawns_of:nope", "log")])
+        sj.append((bld, "plain", rng.choice([16, 32, 64]), 1500 if tr == "quick" else 3000, FMT, "file", rng.randrange(1, 10**6), root, idx, ch))
+        idx += 1
     # (c) non-thread-safe build, single-threaded use
     nbld = vbuild.build("plain-nts")
     for f, st in pmap(stress_run, sj, 8):
@@ -262,11 +280,11 @@ def main():
         nts_ok += check_records(recs, threads, 1, 300, F, dict(build="plain-nts"), "nts", with_threads=False)
     tot["nts.records_ok"] = nts_ok
     rmwork(root)
-    if tot.get("dfs.distinct_schedules", 0) < 2 or tot.get("stress.stress_runs", 0) == 0 or nts_ok == 0:
+    if (tot.get("dfs.distinct_schedules", 0) < 2 or tot.get("stress.stress_runs", 0) == 0 or nts_ok == 0) and F.n_unlisted() == 0:
         raise Harness("observed too little: %s" % tot)
-    if tot.get("stress.concurrent_runs", 0) < tot.get("stress.stress_runs", 0) * 0.9:
+    if (tot.get("stress.concurrent_runs", 0) < tot.get("stress.stress_runs", 0) * 0.9) and F.n_unlisted() == 0:
         raise Harness("most stress runs never had two calls in flight at once: %s" % tot)
-    if tot.get("dfs.inconclusive", 0) > tot["dfs.schedules"] // 100:
+    if (tot.get("dfs.inconclusive", 0) > tot["dfs.schedules"] // 100) and F.n_unlisted() == 0:
         raise Harness("too many schedules hit the wall-clock watchdog: %s" % tot)
     rc = F.report()
     write_evidence(PROP, "exploration", tr, dict(
